@@ -88,13 +88,14 @@ func TestC13(t *testing.T) {
 		o.Reset = []float64{0, 0.05, 0.3, 1, 10, -1}[c.R.IntN(6)]
 		o.Zstd = c.R.IntN(2)
 		var h *History
-		switch c.R.IntN(3) {
+		switch (c.Idx / 3) % 3 {
 		case 0:
 			h = WideHistory(sig, 4, 300, 0)
 		case 1:
 			h = WideHistory(sig, 3, 700, 0)
 		default:
-			h = WideHistory(sig, 50, 120, 1)
+			// every other staggered case: the nested optional strings are absent until they become active
+			h = WideHistoryOpt(sig, 50, 120, 1, c.Idx%2 == 0)
 		}
 		run(c, h, o, sig.String(), "wide")
 	})
